@@ -20,6 +20,12 @@ package main
 //@   requires opts != nil
 //@   assigns nothing
 //@   ensures err == nil ==> wfProgs(progs)
+//@   ensures [C09] one-program-per-patch-flag: err == nil && len(opts.PatchesFile) == 0 ==> len(progs) == len(opts.Patches) + ite(len(opts.Patches) == 0, 1, 0)
+//@   ensures [C09] at-least-the-patch-flags: err == nil ==> len(progs) >= len(opts.Patches)
+//@   loop 0
+//@     invariant fresh(loader.progs.arr) || loader.progs.arr == 0
+//@     invariant len(loader.progs) == #k + ite(len(opts.Patches) == 0 && len(opts.PatchesFile) == 0, 1, 0)
+//@     invariant forall i int {loader.progs[i]} :: 0 <= i && i < len(loader.progs) ==> wfProg(loader.progs[i])
 
 //@ func checkGeneratedCode(f) (r)
 //@   requires f != nil
@@ -129,3 +135,44 @@ package main
 //@ func findFiles$1(i, j) (r)
 //@   requires 0 <= i && i < len(sortedPaths) && 0 <= j && j < len(sortedPaths)
 //@   assigns nothing
+
+// ---- loader.go ------------------------------------------------------------------------------
+
+//@ func newPatchLoader
+//@   inline
+
+//@ func (l *patchLoader) Programs
+//@   inline
+
+//@ func funcval:github.com/uber-go/gopatch.patchLoader.parseAndCompile(fset, name, src) (prog, err)
+//@   assigns nothing
+//@   ensures err == nil ==> wfProg(prog)
+
+//@ func (l *patchLoader) LoadReader(name, r) (err)
+//@   assigns l.progs, elems(l.progs)
+//@   ensures [C09] loaded-appended-last: err == nil ==> len(l.progs) == old(len(l.progs)) + 1
+//@   ensures [C09] appended-are-wellformed: forall i int {l.progs[i]} :: old(len(l.progs)) <= i && i < len(l.progs) ==> wfProg(l.progs[i])
+//@   ensures [C09] earlier-programs-kept-in-order: forall i int {l.progs[i]} :: 0 <= i && i < old(len(l.progs)) ==> l.progs[i] == old(l.progs[i])
+//@   ensures [C09,C16] failed-load-appends-nothing: err != nil ==> len(l.progs) == old(len(l.progs))
+//@   ensures same-or-fresh-array: l.progs.arr == old(l.progs.arr) || fresh(l.progs.arr)
+
+//@ func (l *patchLoader) LoadFile(path) (err)
+//@   assigns l.progs, elems(l.progs)
+//@   ensures [C09] loaded-appended-last: err == nil ==> len(l.progs) == old(len(l.progs)) + 1
+//@   ensures [C09] appended-are-wellformed: forall i int {l.progs[i]} :: old(len(l.progs)) <= i && i < len(l.progs) ==> wfProg(l.progs[i])
+//@   ensures [C09] earlier-programs-kept-in-order: forall i int {l.progs[i]} :: 0 <= i && i < old(len(l.progs)) ==> l.progs[i] == old(l.progs[i])
+//@   ensures [C09] at-most-one-appended: len(l.progs) == old(len(l.progs)) || len(l.progs) == old(len(l.progs)) + 1
+//@   ensures same-or-fresh-array: l.progs.arr == old(l.progs.arr) || fresh(l.progs.arr)
+
+//@ func (l *patchLoader) LoadFileList(patchList) (err)
+//@   assigns l.progs, elems(l.progs)
+//@   ensures [C09] only-appends: len(l.progs) >= old(len(l.progs))
+//@   ensures [C09] earlier-programs-kept-in-order: forall i int {l.progs[i]} :: 0 <= i && i < old(len(l.progs)) ==> l.progs[i] == old(l.progs[i])
+//@   ensures [C09] appended-are-wellformed: forall i int {l.progs[i]} :: old(len(l.progs)) <= i && i < len(l.progs) ==> wfProg(l.progs[i])
+//@   ensures same-or-fresh-array: l.progs.arr == old(l.progs.arr) || fresh(l.progs.arr)
+//@   loop 0
+//@     invariant l.progs.arr == old(l.progs.arr) || fresh(l.progs.arr)
+//@     invariant len(l.progs) >= old(len(l.progs))
+//@     invariant forall i int {l.progs[i]} :: 0 <= i && i < old(len(l.progs)) ==> l.progs[i] == old(l.progs[i])
+//@     invariant forall i int {l.progs[i]} :: old(len(l.progs)) <= i && i < len(l.progs) ==> wfProg(l.progs[i])
+//@     decreases _
